@@ -3,7 +3,7 @@
    the executable cycle check; the fragment/arity check against the regenerated operator
    table; the two refutation witnesses (IR of corpus flows of harness/h_hydro_b_flows). *)
 From Coq Require Import List String NArith Bool Lia ZifyBool ZifyN.
-From HV Require Import HydroB.Model HydroB.GenOps HydroB.PEmit HydroB.PArity.
+From HV Require Import HydroB.Model HydroB.GenOps HydroB.PEmit HydroB.PArity HydroB.POut.
 Import ListNotations.
 Open Scope string_scope.
 Open Scope N_scope.
@@ -162,6 +162,78 @@ Proof.
   - vm_compute; reflexivity.
   - intros []; vm_compute; reflexivity.
   - intros []; vm_compute; reflexivity.
+Qed.
+
+(* out-degrees of every emitted graph, for the regenerated table (ident linearity, POut.v) *)
+Theorem emit_out_degrees_gen : forall rk f g, emit_flow GenOps.ops_table rk f = Some g ->
+  forall x, In x (g_nodes g) ->
+    out_table_ok GenOps.ops_table (n_op x) = true /\
+    (free_out (n_op x) = false ->
+     outdeg (g_edges g) (n_id x) = if is_sink (n_op x) then 0 else 1).
+Proof.
+  intros rk f g H x Hx.
+  assert (A1 : forallb (fun s => forallb (fun m => forallb mid_ok (src_ops s m)
+                 && negb (match src_ops s m with [] => true | _ => false end)
+                 && forallb (out_table_ok GenOps.ops_table) (src_ops s m)) all_meta) all_src = true)
+    by (vm_compute; reflexivity).
+  assert (A2 : forallb (fun u => forallb (fun m => forallb mid_ok (un_ops u m)
+                 && forallb (out_table_ok GenOps.ops_table) (un_ops u m)) all_meta) all_un = true)
+    by (vm_compute; reflexivity).
+  assert (A3 : forallb (fun b => forallb (fun ml => forallb (fun mr =>
+                 forallb mid_ok (fst (bin_ops b ml mr))
+                 && negb (match fst (bin_ops b ml mr) with [] => true | _ => false end)
+                 && forallb (out_table_ok GenOps.ops_table) (fst (bin_ops b ml mr))) all_meta) all_meta) all_bin = true)
+    by (vm_compute; reflexivity).
+  assert (A4 : forallb (fun k => out_table_ok GenOps.ops_table (sink_op k) && is_sink (sink_op k)) all_sink = true)
+    by (vm_compute; reflexivity).
+  rewrite forallb_forall in A1, A2, A3, A4.
+  assert (S1 : forall s m, forallb mid_ok (src_ops s m) = true /\ src_ops s m <> [] /\
+                           forallb (out_table_ok GenOps.ops_table) (src_ops s m) = true).
+  { intros s m. specialize (A1 s (all_src_complete s)). rewrite forallb_forall in A1.
+    specialize (A1 m (all_meta_complete m)). rewrite !andb_true_iff in A1. destruct A1 as [[B1 B2] B3].
+    split; [exact B1|]. split; [|exact B3]. intro E0. rewrite E0 in B2. discriminate. }
+  assert (S2 : forall u m, forallb mid_ok (un_ops u m) = true /\
+                           forallb (out_table_ok GenOps.ops_table) (un_ops u m) = true).
+  { intros u m. specialize (A2 u (all_un_complete u)). rewrite forallb_forall in A2.
+    specialize (A2 m (all_meta_complete m)). rewrite andb_true_iff in A2. exact A2. }
+  assert (S3 : forall b ml mr, forallb mid_ok (fst (bin_ops b ml mr)) = true /\ fst (bin_ops b ml mr) <> [] /\
+                               forallb (out_table_ok GenOps.ops_table) (fst (bin_ops b ml mr)) = true).
+  { intros b ml mr. specialize (A3 b (all_bin_complete b)). rewrite forallb_forall in A3.
+    specialize (A3 ml (all_meta_complete ml)). rewrite forallb_forall in A3.
+    specialize (A3 mr (all_meta_complete mr)). rewrite !andb_true_iff in A3. destruct A3 as [[B1 B2] B3].
+    split; [exact B1|]. split; [|exact B3]. intro E0. rewrite E0 in B2. discriminate. }
+  refine (emit_out_degrees GenOps.ops_table rk _ _ _ _ _ _ _ _ f g H x Hx).
+  - intros s m. destruct (S1 s m) as (B1 & B2 & _). split; assumption.
+  - intros u m. apply (S2 u m).
+  - intros b ml mr. destruct (S3 b ml mr) as (B1 & B2 & _). split; assumption.
+  - intros s m. apply (S1 s m).
+  - intros u m. apply (S2 u m).
+  - intros b ml mr. apply (S3 b ml mr).
+  - intros k. specialize (A4 k (all_sink_complete k)). rewrite andb_true_iff in A4. exact A4.
+  - vm_compute; reflexivity.
+Qed.
+
+(* the arity theorem, complete: every node's in-degree AND out-degree are inside the hard
+   ranges of the regenerated operator table (the cycle `identity` operators excepted for the
+   out-degree: theirs is the number of uses of the cycle variable, 1 for a linear API) *)
+Theorem emit_arities_complete : forall rk f g, emit_flow GenOps.ops_table rk f = Some g ->
+  forall x, In x (g_nodes g) ->
+    exists r, find_row GenOps.ops_table (n_op x) = Some r /\
+      in_range (r_inn r) (indeg (g_edges g) (n_id x)) = true /\
+      (n_op x <> "identity" -> in_range (r_out r) (outdeg (g_edges g) (n_id x)) = true).
+Proof.
+  intros rk f g H x Hx.
+  pose proof (emit_in_arities_gen rk f g H x Hx) as Hin.
+  destruct (emit_out_degrees_gen rk f g H x Hx) as [Htab Hout].
+  unfold op_takes in Hin. unfold out_table_ok in Htab.
+  destruct (find_row GenOps.ops_table (n_op x)) as [r|]; [|discriminate].
+  exists r. split; [reflexivity|]. split; [exact Hin|]. intro Hnid.
+  destruct (String.eqb (n_op x) "tee") eqn:Et.
+  - apply andb_true_iff in Htab. destruct Htab as [Hlo Hhi]. apply N.eqb_eq in Hlo.
+    unfold in_range. rewrite Hlo. destruct (snd (r_out r)); [discriminate|].
+    rewrite andb_true_r. apply N.leb_le. apply N.le_0_l.
+  - assert (Ei : String.eqb (n_op x) "identity" = false) by (apply String.eqb_neq; exact Hnid).
+    rewrite Ei in Htab. rewrite Hout; [exact Htab|]. unfold free_out. rewrite Et, Ei. reflexivity.
 Qed.
 
 (* ------------------------------------------------------------------ refutation witnesses *)
